@@ -12,6 +12,8 @@
 (* Inputs on which the property does not decide the outcome are not generated (Decided).      *)
 EXTENDS Detector, Json, TLCExt
 
+Ts200 == 1..200
+
 VARIABLES hist, done
 gvars == <<vars, hist, done>>
 
@@ -56,7 +58,7 @@ Finish == /\ n > 0 /\ done' = TRUE /\ UNCHANGED <<vars, hist>>
 
 GNext ==
     /\ ~done
-    /\ \/ (n < MaxChunks /\ \E c \in Chunks, tun \in BOOLEAN : GStep(c, tun))
+    /\ \/ (\E c \in Chunks, tun \in BOOLEAN : GStep(c, tun))
        \/ Finish
 
 GSpec == GInit /\ [][GNext]_gvars
